@@ -1,9 +1,18 @@
 import WD.Driver.C09
+import WD.Driver.C15
+import WD.Driver.C14
 open WD.Driver WD.Proto
 
 def handle (line : String) : String :=
   match tokens line with
   | "snapdiff" :: ts => c09Line ts
+  | "submoved" :: ts => c14Line "submoved" ts
+  | "subcreated" :: ts => c14Line "subcreated" ts
+  | "rekey" :: ts => c14Line "rekey" ts
+  | "basedisp" :: ts => c15Line "basedisp" ts
+  | "patdisp" :: ts => c15Line "patdisp" ts
+  | "redisp" :: ts => c15Line "redisp" ts
+  | "filterpaths" :: ts => c15Line "filterpaths" ts
   | _ => "bad-op"
 
 partial def loop (h : IO.FS.Stream) (out : IO.FS.Stream) : IO Unit := do
